@@ -105,9 +105,36 @@ func triples() *family {
 	})
 }
 
+// depth4: selected types with three container levels.
+func depth4Types() []*ref.Type {
+	sc := universe.Sc
+	var r []*ref.Type
+	outers := []func(*ref.Type) *ref.Type{universe.ListOf, universe.SetOf, func(e *ref.Type) *ref.Type { return universe.MapOf(sc(ref.KI32), e) }}
+	mids := []func(*ref.Type) *ref.Type{universe.ListOf, universe.SetOf, func(e *ref.Type) *ref.Type { return universe.MapOf(sc(ref.KString), e) }}
+	inners := []*ref.Type{universe.ListOf(sc(ref.KI32)), universe.SetOf(sc(ref.KString)), universe.ListOf(universe.StPtr(universe.Leaf()))}
+	for _, o := range outers {
+		for _, m := range mids {
+			for _, in := range inners {
+				r = append(r, o(m(in)))
+			}
+		}
+	}
+	return r
+}
+
+func depth4() *family {
+	return cached("depth4", func() *family {
+		f := &family{name: "depth-4"}
+		for _, t := range depth4Types() {
+			f.items = append(f.items, universe.One(t, universe.FieldShell{Req: ref.ReqDefault}, 1))
+		}
+		return f
+	})
+}
+
 // codecFamilies is the type space shared by C01, C02, C04, C16 and C18.
 func codecFamilies(tier universe.Tier) []*family {
-	fs := []*family{singles(3), idFamily(), pairs(tier)}
+	fs := []*family{singles(3), idFamily(), pairs(tier), depth4()}
 	if tier == universe.Thorough {
 		fs = append(fs, triples())
 	}
